@@ -1308,6 +1308,8 @@ class FnTr:
                 if v.typ.startswith('List '):
                     return Val(f'(Int.ofNat ({v.text}).length)', 'Int')
                 raise Unsupported(f'len() of {v.typ}')
+            if f.id == 'list' and not e.args and not e.keywords:
+                return Val('[]', 'List ?')
             if f.id == 'list' and len(e.args) == 1 and not e.keywords:
                 v = self.iterable(e.args[0])
                 if v.typ.startswith('List '):
